@@ -76,7 +76,41 @@ package packets
 //@ ensures [C06] result1 == nil ==> 0 <= result0 && result0 <= 268435455
 //@ ensures [C06] result1 == nil ==> r.$pos - p0 <= 4 && r.$pos >= p0
 //@ ensures [C06] result1 == nil && r.$pos - p0 >= 1 ==> uint32(result0) == partial(r, p0, r.$pos - p0) || (r.$pos == r.$len && uint32(result0) == partial(r, p0, r.$pos - p0 + 1))
-//@ ensures [C06] result1 == nil ==> (forall j int :: 0 <= j && j + 1 < r.$pos - p0 ==> (d(r, p0 + j) & 128) != 0)
+//@ ensures [C06] result1 == nil ==> (forall i int :: p0 <= i && i < r.$pos - 1 ==> (d(r, i) & 128) != 0)
 //@ loop 1 invariant p0 <= r.$pos && r.$pos - p0 <= 3 && r.$pos <= r.$len
 //@ loop 1 invariant multiplier == 7 * uint32(r.$pos - p0) && vbi == partial(r, p0, r.$pos - p0)
-//@ loop 1 invariant forall j int :: 0 <= j && j < r.$pos - p0 ==> (d(r, p0 + j) & 128) != 0
+//@ loop 1 invariant forall i int :: p0 <= i && i < r.$pos ==> (d(r, i) & 128) != 0
+
+// Round trip of the variable byte integer: the canonical encoding of x (vbiLen(x) bytes vbiByte(x, k)) has the
+// continuation bit on every byte but the last and its 7-bit groups reassemble to x — i.e. what the decoder's
+// contract computes from the encoder's output is x again.
+//@ spec func grpOf(x int, k int) int = (int(vbiByte(x, k)) & 127) << (7 * k)
+//@ lemma vbiRoundTrip mode bv : [C06] forall x int :: 0 <= x && x < 268435456 ==> ((vbiLen(x) == 1 ==> grpOf(x, 0) == x && (vbiByte(x, 0) & 128) == 0) && (vbiLen(x) == 2 ==> (grpOf(x, 0) | grpOf(x, 1)) == x && (vbiByte(x, 0) & 128) != 0 && (vbiByte(x, 1) & 128) == 0) && (vbiLen(x) == 3 ==> (grpOf(x, 0) | grpOf(x, 1) | grpOf(x, 2)) == x && (vbiByte(x, 0) & 128) != 0 && (vbiByte(x, 1) & 128) != 0 && (vbiByte(x, 2) & 128) == 0) && (vbiLen(x) == 4 ==> (grpOf(x, 0) | grpOf(x, 1) | grpOf(x, 2) | grpOf(x, 3)) == x && (vbiByte(x, 0) & 128) != 0 && (vbiByte(x, 1) & 128) != 0 && (vbiByte(x, 2) & 128) != 0 && (vbiByte(x, 3) & 128) == 0))
+
+// ---------------------------------------------------------------------------
+// C06 — topic name / topic filter validators against MQTT 4.7.1.
+// filterRule(p, i): byte i of filter p obeys the wildcard rules: '#' only as the last byte and only after '/' or
+// at the start; '+' only after '/' or at the start and only before '/' or at the end.
+//@ spec func filterRule(p []byte, i int) bool = (p[i] == 35 ==> i == len(p) - 1 && (i == 0 || p[i - 1] == 47)) && (p[i] == 43 ==> (i == 0 || p[i - 1] == 47) && (i == len(p) - 1 || p[i + 1] == 47))
+
+//@ func ValidTopicFilter
+//@ props C06
+//@ witness n = len(p)
+//@ witness c0 = p[0]
+//@ witness c1 = p[1]
+//@ witness c2 = p[2]
+//@ witness must = mustUTF8
+//@ ensures [C06] len(p) == 0 ==> !result
+//@ ensures [C06] result ==> len(p) > 0 && (forall i int :: 0 <= i && i < len(p) ==> filterRule(p, i))
+//@ ensures [C06] !mustUTF8 && len(p) > 0 && (forall i int :: 0 <= i && i < len(p) ==> filterRule(p, i)) ==> result
+//@ loop 1 invariant ref(p) == ref(old(p)) && off(p) >= off(old(p)) && off(p) + len(p) == off(old(p)) + len(old(p)) && len(old(p)) > 0
+//@ loop 1 invariant isSetPrevByte == (off(p) > off(old(p)))
+//@ loop 1 invariant isSetPrevByte ==> ((prevByte == 47) == (old(p)[off(p) - off(old(p)) - 1] == 47))
+//@ loop 1 invariant forall i int :: 0 <= i && i < off(p) - off(old(p)) ==> filterRule(old(p), i)
+
+//@ func ValidTopicName
+//@ props C06
+//@ ensures [C06] result ==> (forall i int :: 0 <= i && i < len(p) ==> p[i] != 43 && p[i] != 35)
+//@ ensures [C06] !mustUTF8 && (forall i int :: 0 <= i && i < len(p) ==> p[i] != 43 && p[i] != 35) ==> result
+//@ loop 1 invariant ref(p) == ref(old(p)) && off(p) >= off(old(p)) && off(p) + len(p) == off(old(p)) + len(old(p))
+//@ loop 1 invariant forall i int :: 0 <= i && i < off(p) - off(old(p)) ==> old(p)[i] != 43 && old(p)[i] != 35
